@@ -45,7 +45,7 @@ def build(tier, seed):
                     L, list(DTS), [list(p) for p in PLISTS], list(XIS), list(MDR)),
         'bounds': {'alphabet': [-1, 0, 2], 'max_len': L, 'dt': DTS, 'period_lists_in_dt': PLISTS, 'xi': XIS, 'min_dt_ratio': MDR},
         'required_classes': ['T<6dt', 'T>=6dt', 'T=0', 'container-list', 'container-tuple', 'container-int', 'object-after-edit', 'refined-f>1', 'unrefined-f=1',
-                             'xi=0-true-equals-pseudo', 'energy>0', 'object-descending-periods'],
+                             'xi=0-true-equals-pseudo', 'energy>0', 'object-descending-periods', 'object-min_dt_ratio-sequence'],
         'assumptions': ['reference peaks from the 40-digit exact response (mcheck/refs/sdof_ref.py) with the tolerance of C01',
                         'object path (e): which integer refinement factor float rounding of dt/target lands on (f or f+1) and whether the '
                         'library interpolation holds the last value for f-1 extra sub-steps is not fixed by the statement: all are accepted'],
@@ -303,6 +303,42 @@ def run_case(case):
                             r.fail('e.object-lazy', base, 'lazy s_d/s_v/s_a differ from gen_response_spectrum(xi=0.05, min_dt_ratio=4)', observed=g1, expected=g2)
                     except Exception as e:
                         r.fail('e.object-lazy', base, 'malformed: %s' % e)
+                # one object asked for every min_dt_ratio in turn (spectra already cached by a lazy read; damping left at the object's
+                # own value): each request is answered like a fresh object asked once, through both spellings of the method
+                for meth in ('gen_response_spectrum', 'generate_response_spectrum'):
+                    for order in (tuple(MDR), tuple(reversed(MDR))):
+                        def walk():
+                            s = eqsig.AccSignal(a, dt, response_times=np.array(periods))
+                            s.s_a
+                            out = []
+                            for m_ in order:
+                                getattr(s, meth)(min_dt_ratio=m_)
+                                out.append((np.array(s.s_d), np.array(s.s_v), np.array(s.s_a)))
+                            return out
+
+                        def singles():
+                            out = []
+                            for m_ in order:
+                                s = eqsig.AccSignal(a, dt, response_times=np.array(periods))
+                                s.gen_response_spectrum(xi=0.05, min_dt_ratio=m_)
+                                out.append((np.array(s.s_d), np.array(s.s_v), np.array(s.s_a)))
+                            return out
+                        sub = dict(base, method=meth, min_dt_ratio_sequence=list(order))
+                        ok1, g1 = r.call('e.object-sequence', sub, walk)
+                        ok2, g2 = r.call('e.object-sequence', sub, singles)
+                        if ok1 and ok2:
+                            r.n_cmp += 1
+                            r.cls('object-min_dt_ratio-sequence')
+                            try:
+                                bad = [order[k] for k in range(len(order))
+                                       if not all(np.asarray(x).shape == np.asarray(y).shape and
+                                                  np.all(np.abs(np.asarray(x, dtype=float) - np.asarray(y, dtype=float)) <= 1e-9 * np.abs(y) + 1e-300)
+                                                  for x, y in zip(g1[k], g2[k]))]
+                                if bad:
+                                    r.fail('e.object-sequence', sub, 'spectra after %s(min_dt_ratio=%s) on an object with cached spectra differ from '
+                                           'a fresh object asked once' % (meth, bad[0]), observed=g1, expected=g2)
+                            except Exception as e:
+                                r.fail('e.object-sequence', sub, 'malformed: %s' % e)
     # ---- e (continued): the same object after its record has been replaced / edited: the spectra are those of the new record
     for plist in (PLISTS[1], PLISTS[5]):
         periods = np.array([float(fr(p) * fr(dts)) for p in plist])
